@@ -1,11 +1,140 @@
-(* C10 — placeholder while the round-trip proofs are being built (see below in this file once complete). *)
+(* C10 — Every valid IMAP command parses to exactly the command that was written, independently of the encoding of its
+   strings (atom / quoted / literal), of the letter case of keywords and of optional forms.
+   Property theorems only; every proof is `exact <lemma>` and is followed by Print Assumptions.
+
+   FULL STATEMENT (the goal):  forall t c bs, EncLine t c bs -> parse (bs ++ rest) = Ok t c rest   for EVERY command c.
+   PROVED (C10_roundtrip): exactly that statement, where the relation EncLine / EncCmd (Model/ImapPrinter.v) currently has
+   constructors for: CAPABILITY IDLE NOOP LOGOUT CHECK CLOSE EXPUNGE UNSELECT STARTTLS, SELECT EXAMINE CREATE DELETE
+   SUBSCRIBE UNSUBSCRIBE, RENAME, LIST, LSUB, LOGIN, STATUS, COPY, MOVE, STORE, UID COPY, UID MOVE, UID STORE, UID EXPUNGE,
+   DONE — with all their non-terminals: tag, astring/string/atom in the three encodings, mailbox (INBOX folding),
+   list-mailbox, number / nz-number (leading zeros), sequence sets, flags and flag lists, status attributes.
+   NOT YET COVERED BY THE THEOREM (only by the correspondence harness, which covers all commands): FETCH, SEARCH, APPEND,
+   ID and their non-terminals (sections, partials, search-key trees, dates, date-times).
+   Independence of the chunking of the byte stream cannot be expressed in the model (it reads a byte list): harness only.
+
+   The encodings are defined with the RFC 3501 character classes in byte terms; that the generated token tables of the
+   implementation accept those classes is part of what is proved (C10_rfc_classes_accepted). *)
 From Coq Require Import List NArith Bool String.
-From Gluon Require Import Gen.FactsTokens Model.ImapTokens Model.ImapGrammar.
+From Gluon Require Import Gen.FactsTokens Model.ImapTokens Model.ImapGrammar Model.ImapPrinter
+  Proofs.ImapTokenFacts Proofs.ImapRoundTrip Proofs.ImapRoundTripCmd.
 Import ListNotations.
 Open Scope N_scope.
+
+(* Round trip: any encoding of a command line, followed by anything, parses to exactly that tag and command and leaves
+   exactly what followed. *)
+Theorem C10_roundtrip : forall t c bs, EncLine t c bs -> forall rest fuel, (List.length bs < fuel)%nat ->
+  parse_command fuel (bs ++ rest) = POk t c rest.
+Proof. exact parse_roundtrip. Qed.
+Print Assumptions C10_roundtrip.
+
+(* Corollary: the result does not depend on which encoding was chosen — atom / quoted / literal per string, upper / lower
+   case per keyword letter (EncKw, EncFold), n or n:n, parenthesised or bare flag list, leading zeros ... *)
+Theorem C10_encoding_independent : forall t c b1 b2 rest1 rest2,
+  EncLine t c b1 -> EncLine t c b2 ->
+  exists r1 r2, parse_command (List.length b1 + 1) (b1 ++ rest1) = POk t c r1 /\
+                parse_command (List.length b2 + 1) (b2 ++ rest2) = POk t c r2 /\ r1 = rest1 /\ r2 = rest2.
+Proof. exact parse_encoding_independent. Qed.
+Print Assumptions C10_encoding_independent.
+
+(* Keywords are case-insensitive: a keyword is recognised in every mixture of upper and lower case. *)
+Theorem C10_keyword_case_insensitive : forall kw k rest, EncKw kw k -> kw_ok kw = true ->
+  tok_is TT_Char (cur_tok rest) = false -> p_kw (k ++ rest) = ROk (s2b kw) rest.
+Proof. exact kw_step. Qed.
+Print Assumptions C10_keyword_case_insensitive.
+
+(* The RFC 3501 character classes (bytes) are accepted by the token tables generated from the implementation. *)
+Theorem C10_rfc_classes_accepted :
+  (forall b, rfc_atom_byte b = true -> is_atom_char (tok_of_byte b) = true) /\
+  (forall b, rfc_astring_byte b = true -> is_astring_char (tok_of_byte b) = true) /\
+  (forall b, rfc_list_byte b = true -> is_list_char (tok_of_byte b) = true) /\
+  (forall b, rfc_tag_byte b = true -> is_tag_char (tok_of_byte b) = true) /\
+  (forall b, rfc_quoted_raw b = true -> is_quoted_char (tok_of_byte b) = true) /\
+  (forall b, is_digit_byte b = true -> tok_of_byte b = TT_Digit).
+Proof. exact (conj atom_byte_ok (conj astring_byte_ok (conj list_byte_ok (conj tag_byte_ok (conj quoted_raw_ok digit_byte_ok))))). Qed.
+Print Assumptions C10_rfc_classes_accepted.
+
+(* Non-terminals shared with the commands the theorem does not cover yet *)
+Theorem C10_astring_roundtrip : forall s bs rest, EncAString s bs -> is_astring_char (cur_tok rest) = false ->
+  p_astring (bs ++ rest) = ROk s rest.
+Proof. exact astring_rt. Qed.
+Print Assumptions C10_astring_roundtrip.
+
+Theorem C10_number_roundtrip : forall n ds rest, EncNum n ds -> tok_is TT_Digit (cur_tok rest) = false ->
+  p_number (ds ++ rest) = ROk n rest.
+Proof. exact number_rt. Qed.
+Print Assumptions C10_number_roundtrip.
+
+Theorem C10_seqset_roundtrip : forall s bs rest fuel, EncSeqSet s bs -> (List.length s <= S fuel)%nat -> F_seq rest ->
+  p_seqset fuel (bs ++ rest) = ROk s rest.
+Proof. exact seqset_rt. Qed.
+Print Assumptions C10_seqset_roundtrip.
+
+Theorem C10_flag_list_roundtrip : forall l bs rest fuel, EncFlagList l bs -> (List.length l <= S fuel)%nat ->
+  p_flag_list fuel (bs ++ rest) = ROk l rest.
+Proof. exact flag_list_rt. Qed.
+Print Assumptions C10_flag_list_roundtrip.
 
 (* the keywords the model dispatches on are exactly the keys of the Go builder maps (read from the source) *)
 Theorem C10_command_keywords_match :
   map s2b model_command_keywords = command_keywords /\ map s2b model_uid_keywords = uid_command_keywords.
 Proof. split; reflexivity. Qed.
 Print Assumptions C10_command_keywords_match.
+
+(* ---- non-vacuity: two concrete encodings *)
+Ltac in_bytes := let b := fresh in let H := fresh in intros b H; repeat (destruct H as [<-|H]; [reflexivity|]); contradiction.
+
+(* a1 LoGiN {4}CRLF user, then the quoted string pa-backslash-doublequote-ss, CRLF: a literal, a quoted string with an
+   escape, a mixed-case keyword *)
+Example C10_login_example :
+  EncLine (s2b "a1") (CLogin (s2b "user") [112; 97; 34; 115; 115])
+          (s2b "a1 LoGiN {4}" ++ [13; 10] ++ s2b "user " ++ [34; 112; 97; 92; 34; 115; 115; 34; 13; 10]).
+Proof.
+  apply (EL_cmd (s2b "a1") _ (s2b "LoGiN" ++ 32 :: (123 :: [52] ++ [125; 13; 10] ++ s2b "user") ++ 32 :: [34; 112; 97; 92; 34; 115; 115; 34])).
+  - split; [discriminate|]. split; [in_bytes|reflexivity].
+  - apply EC_login.
+    + reflexivity.
+    + right. right. exists [52]. split; [reflexivity|]. split; [|split; [discriminate|reflexivity]].
+      split; [discriminate|]. split; [in_bytes|]. split; [reflexivity|discriminate].
+    + right. left. exists [112; 97; 92; 34; 115; 115]. split; [reflexivity|].
+      repeat first [apply EQ_nil | (apply EQ_raw; [reflexivity|]) | (apply EQ_esc; [reflexivity|])].
+Qed.
+
+(* t UID store 1:*,3 +flags.SILENT (\Seen foo)CRLF *)
+Example C10_uid_store_example :
+  EncLine (s2b "t") (CSel true (SStore [(1, 0); (3, 3)] StAdd true [s2b "\Seen"; s2b "foo"]))
+          (s2b "t UID store 1:*,3 +flags.SILENT (\Seen foo)" ++ [13; 10]).
+Proof.
+  apply (EL_cmd (s2b "t") _ (s2b "UID" ++ 32 :: (s2b "store" ++ 32 :: s2b "1:*,3" ++ 32 :: [43] ++ s2b "flags" ++ s2b ".SILENT" ++ 32 :: s2b "(\Seen foo)"))).
+  - split; [discriminate|]. split; [in_bytes|reflexivity].
+  - apply EC_uid; [reflexivity|].
+    apply (ES_store [(1, 0); (3, 3)] StAdd true [s2b "\Seen"; s2b "foo"] (s2b "store") (s2b "1:*,3") [43] (s2b "flags") (s2b ".SILENT") (s2b "(\Seen foo)")).
+    + reflexivity.
+    + exists (s2b "1:*"), (s2b ",3"). split; [reflexivity|]. split.
+      * right. exists [49], [42]. split; [reflexivity|]. split.
+        -- right. split; [discriminate|]. split; [discriminate|]. split; [discriminate|]. split; [in_bytes|]. split; [reflexivity|discriminate].
+        -- left. split; reflexivity.
+      * apply (EST_cons EncSeqRange 44 (3, 3) [51] [] []); [|apply EST_nil].
+        left. split; [reflexivity|]. right. split; [discriminate|]. split; [discriminate|].
+        split; [discriminate|]. split; [in_bytes|]. split; [reflexivity|discriminate].
+    + reflexivity.
+    + reflexivity.
+    + exists (s2b "SILENT"). split; reflexivity.
+    + left. exists (s2b "\Seen foo"). split; [reflexivity|].
+      exists (s2b "\Seen"), (s2b " foo"). split; [reflexivity|]. split.
+      * split; [reflexivity|]. right. exists (s2b "Seen"). split; [reflexivity|]. split; [|reflexivity].
+        split; [reflexivity|]. split; [discriminate|in_bytes].
+      * apply (EST_cons EncFlag 32 (s2b "foo") (s2b "foo") [] []); [|apply EST_nil].
+        split; [reflexivity|]. left. split; [reflexivity|]. split; [discriminate|in_bytes].
+Qed.
+
+(* the theorem applied to the examples, and the same by evaluation of the model *)
+Example C10_examples_parse :
+  parse_command 100 ((s2b "a1 LoGiN {4}" ++ [13; 10] ++ s2b "user " ++ [34; 112; 97; 92; 34; 115; 115; 34; 13; 10]) ++ s2b "next")
+  = POk (s2b "a1") (CLogin (s2b "user") [112; 97; 34; 115; 115]) (s2b "next")
+  /\ parse_command 100 ((s2b "t UID store 1:*,3 +flags.SILENT (\Seen foo)" ++ [13; 10]) ++ [])
+  = POk (s2b "t") (CSel true (SStore [(1, 0); (3, 3)] StAdd true [s2b "\Seen"; s2b "foo"])) [].
+Proof.
+  split.
+  - apply (C10_roundtrip _ _ _ C10_login_example). vm_compute. repeat constructor.
+  - apply (C10_roundtrip _ _ _ C10_uid_store_example). vm_compute. repeat constructor.
+Qed.
